@@ -72,7 +72,7 @@ func replay(cw *caseWriter, path string) {
 			c12replay(cw, tag, in)
 		case 1201:
 			cvExec(cw, tag, in)
-		case 14:
+		case 14, 1401:
 			c14replay(cw, tag, in)
 		case 8:
 			lsRun(cw, tag, in, false)
